@@ -710,7 +710,9 @@ def formula_grammar(table):
     element = element.setParseAction(convert_element)
 
     # Convert "count elements" to a pair
-    implicit_group = count+OneOrMore(element)
+    # Note: elements within a group must be adjacent; white space separates
+    # groups, so "2CaCO3 H2O" is (CaCO3)2 + H2O rather than (CaCO3 H2O)2.
+    implicit_group = count+element+ZeroOrMore(~White()+element)
     def convert_implicit(string, location, tokens):
         """convert count followed by fragment"""
         #print "implicit", tokens
